@@ -404,6 +404,8 @@ package gojq
 //@   ensures (x is int) ==> ok && r == x.(int)
 //@   ensures (x is *big.Int) ==> ok && r == max(MinInt, min(MaxInt, bigval(x.(*big.Int))))
 //@   ensures ok == ((x is int) || (x is float64) || (x is *big.Int) || (x is json.Number))
+//@   ensures (x is float64) ==> r == f2i(x.(float64))
+//@   ensures (x is json.Number) && !isIntLit(string(x.(json.Number))) ==> r == f2i(parsedFloatOf(string(x.(json.Number))))
 //@   defines ok ==> r == old(toIntOf(x))
 //@   defines ok ==> r == toIntP(x)
 
@@ -413,6 +415,9 @@ package gojq
 //@   ensures forall p *big.Int :: {bigval(p)} p <= oldalloc() ==> bigval(p) == old(bigval(p))
 //@   ensures (x is int) ==> ok && r == x.(int)
 //@   ensures ok == ((x is int) || (x is float64) || (x is *big.Int) || (x is json.Number))
+//@   ensures (x is float64) ==> r == f2i(fceil(x.(float64)))
+// representation independence: a non-integer json.Number literal is rounded up exactly like the float it denotes
+//@   ensures (x is json.Number) && !isIntLit(string(x.(json.Number))) ==> r == f2i(fceil(parsedFloatOf(string(x.(json.Number)))))
 //@   defines ok ==> r == old(toIntCeilOf(x))
 
 //@ func slice(vs []any, e, s any) (r any)
@@ -766,8 +771,11 @@ package gojq
 //@   ensures (v is []any) ==> (r is int) && r.(int) == len(v.([]any))
 
 // C03: float to int conversion only inside the representable range, saturation outside.
+// f2i(x): the int floatToInt converts x to (truncation inside the int64 range, saturation outside)
+//@ spec func f2i(x float64) int
 //@ func floatToInt(x float64) (r int)
 //@   property C03
+//@   defines r == f2i(x)
 //@   ensures (flit(14114281232179134464) <= x && x < flit(4890909195324358656)) || r == MaxInt || r == MinInt
 
 // ---------------------------------------------------------------------------------------
@@ -1034,3 +1042,11 @@ package gojq
 //@   using cmpv_range
 //@   ensures (v is []any) ==> (r is int) && -len(v.([]any)) - 1 <= r.(int) && r.(int) < len(v.([]any))
 //@   ensures (v is []any) && r.(int) >= 0 ==> cmpv(v.([]any)[r.(int)], t) == 0
+
+// C03: the value computed does not depend on which Go representation carries a number: every one of
+// the four numeric representations converts to a float (a json.Number literal like any other).
+//@ func toFloat(x any) (r float64, ok bool)
+//@   property C03
+//@   ensures ok == ((x is int) || (x is float64) || (x is *big.Int) || (x is json.Number))
+//@   ensures (x is float64) ==> r == x.(float64)
+//@   ensures (x is int) ==> r == float64(x.(int))
